@@ -568,6 +568,21 @@ class Rewriter:
                                 self.rec('R18', '.range(s, start, None, Ascending).take(n).map(|item| Ok(value)).collect()', '.range_take_(s, start, n)')
                                 k = ce + 1
                                 continue
+                # R17b: `.take(N)` with a literal N >= 1 between the range and `.next()` does not change the first element
+                tail13, q13 = [], pc_
+                for _ in range(13):
+                    q13 = nxt(q13)
+                    if q13 >= n:
+                        break
+                    tail13.append(toks[q13])
+                tt13 = ''.join(x.text for x in tail13)
+                m17b = re.match(r'\.take\(([1-9][0-9]*)(usize|u32|u64)?\)\.next\(\)\.transpose\(\)$', tt13)
+                if m17b and len(tail13) == 13:
+                    out.append(T('ident', 'range_first_', t.start))
+                    self.rec('R17', '.range(..).take(%s).next().transpose()' % m17b.group(1), '.range_first_(..)')
+                    out.extend(toks[nxt(k):pc_ + 1])
+                    k = q13 + 1
+                    continue
                 if tt.startswith('.next().transpose()'):
                     out.append(T('ident', 'range_first_', t.start))
                     self.rec('R17', '.range(..).next().transpose()', '.range_first_(..)')
